@@ -1,2 +1,802 @@
-// (K) kernel correspondence — filled in below
-fn run_kernel_correspondence(_cx: &mut Ctx) {}
+// ---------------------------------------------------------------------------------------------
+// (K) kernel correspondence: Model/Guards.lean (through the driver) vs the real functions.
+// Direct Rust calls where the function is public (KRange, string iterators, StringSlice, KTuple,
+// format_source_excerpt, VerifFrame (hook H3), Lexer::peek, verif_timeout_probe (hook H4)),
+// otherwise tiny scripts (index / index-assign / remainder / shifts / list functions / patterns).
+// Everything runs in-process under catch_unwind (these cases neither hang nor abort).
+// Outcome: `panic` | `err` | `ok <canonical>`; the model says `panic` ⇔ the implementation panics.
+// ---------------------------------------------------------------------------------------------
+
+use koto_runtime::{KNumber, KRange};
+
+const I64_POOL: &[i64] = &[
+    0, 1, -1, 2, 63, 64, 255, 256, 65535, 65536, 2147483646, 2147483647, 2147483648, -2147483647, -2147483648, -2147483649,
+    9223372036854775806, 9223372036854775807, -9223372036854775807, -9223372036854775808,
+];
+const F64_POOL: &[f64] = &[f64::NAN, f64::INFINITY, f64::NEG_INFINITY, 0.0, -0.0, 0.5, -0.5, 1e30, -1e30, 3.0, 2.5];
+
+#[derive(Clone, Copy, Debug)]
+enum N {
+    I(i64),
+    F(f64),
+}
+
+impl N {
+    fn proto(&self) -> String {
+        match self {
+            N::I(i) => format!("i{}", i),
+            N::F(f) => kvh::canon::float(*f),
+        }
+    }
+    fn knum(&self) -> KNumber {
+        match self {
+            N::I(i) => KNumber::I64(*i),
+            N::F(f) => KNumber::F64(*f),
+        }
+    }
+    /// koto source text
+    fn src(&self) -> String {
+        match self {
+            N::I(i) if *i == i64::MIN => "(-9223372036854775807 - 1)".to_string(),
+            N::I(i) if *i < 0 => format!("({})", i),
+            N::I(i) => format!("{}", i),
+            N::F(f) if f.is_nan() => "number.nan".to_string(),
+            N::F(f) if *f == f64::INFINITY => "number.infinity".to_string(),
+            N::F(f) if *f == f64::NEG_INFINITY => "number.negative_infinity".to_string(),
+            N::F(f) if *f == 0.0 && f.is_sign_negative() => "(-0.0)".to_string(),
+            N::F(f) if *f < 0.0 => format!("({:e})", f),
+            N::F(f) => {
+                if f.fract() == 0.0 && f.abs() < 1e15 {
+                    format!("{:.1}", f)
+                } else {
+                    format!("{:e}", f)
+                }
+            }
+        }
+    }
+}
+
+fn num_pool() -> Vec<N> {
+    I64_POOL.iter().map(|i| N::I(*i)).chain(F64_POOL.iter().map(|f| N::F(*f))).collect()
+}
+
+type R = (Option<i64>, Option<(i64, bool)>);
+
+fn range_proto(r: &R) -> String {
+    format!(
+        "(r {} {} {})",
+        r.0.map(|x| x.to_string()).unwrap_or_else(|| "_".into()),
+        r.1.map(|x| x.0.to_string()).unwrap_or_else(|| "_".into()),
+        if r.1.is_some_and(|x| x.1) { 1 } else { 0 }
+    )
+}
+
+fn range_src(r: &R) -> String {
+    let s = r.0.map(|x| N::I(x).src()).unwrap_or_default();
+    match r.1 {
+        Some((e, true)) => format!("({}..={})", s, N::I(e).src()),
+        Some((e, false)) => format!("({}..{})", s, N::I(e).src()),
+        None => format!("({}..)", s),
+    }
+}
+
+fn krange(r: &R) -> KRange {
+    KRange::new(r.0, r.1)
+}
+
+const RANGE_BOUNDS: &[i64] = &[0, 1, -1, 3, 10, 2147483647, 2147483648, -2147483648, -2147483649, 9223372036854775806, 9223372036854775807, -9223372036854775807, -9223372036854775808];
+
+fn range_pool() -> Vec<R> {
+    let mut out = vec![(None, None)];
+    for &a in RANGE_BOUNDS {
+        out.push((Some(a), None));
+        out.push((None, Some((a, false))));
+        out.push((None, Some((a, true))));
+        for &b in RANGE_BOUNDS {
+            out.push((Some(a), Some((b, false))));
+            out.push((Some(a), Some((b, true))));
+        }
+    }
+    out
+}
+
+fn small_range_pool() -> Vec<R> {
+    let bounds: &[i64] = &[0, 1, -1, 3, 4, 5, 2147483648, 9223372036854775806, 9223372036854775807, -9223372036854775808];
+    let mut out = vec![(None, None)];
+    for &a in bounds {
+        out.push((Some(a), None));
+        out.push((None, Some((a, false))));
+        out.push((None, Some((a, true))));
+        for &b in bounds {
+            out.push((Some(a), Some((b, false))));
+            out.push((Some(a), Some((b, true))));
+        }
+    }
+    out
+}
+
+fn caught<T>(f: impl FnOnce() -> T) -> Option<T> {
+    GUARD_DEPTH.with(|d| d.set(d.get() + 1));
+    let r = std::panic::catch_unwind(std::panic::AssertUnwindSafe(f)).ok();
+    GUARD_DEPTH.with(|d| d.set(d.get() - 1));
+    if r.is_none() {
+        let _ = LAST_PANIC.with(|l| l.borrow_mut().take());
+    }
+    r
+}
+
+/// run a script in-process: Ok(Some(value)) / Ok(None) = runtime or compile error / Err = panic
+fn script(src: &str) -> Result<Option<KValue>, ()> {
+    let mut koto = new_koto();
+    match caught(|| koto.compile_and_run(src)) {
+        None => Err(()),
+        Some(Ok(v)) => Ok(Some(v)),
+        Some(Err(_)) => Ok(None),
+    }
+}
+
+fn as_i64(v: &KValue) -> Option<i64> {
+    match v {
+        KValue::Number(KNumber::I64(i)) => Some(*i),
+        _ => None,
+    }
+}
+
+struct KRun {
+    reqs: Vec<String>,
+    impls: Vec<String>,
+    srcs: Vec<String>,
+}
+
+impl KRun {
+    fn add(&mut self, req: String, imp: String, src: String) {
+        self.reqs.push(req);
+        self.impls.push(imp);
+        self.srcs.push(src);
+    }
+}
+
+fn ok_or_panic<T>(r: Option<T>, f: impl FnOnce(T) -> String) -> String {
+    match r {
+        Some(v) => format!("ok {}", f(v)),
+        None => "panic".to_string(),
+    }
+}
+
+fn script_outcome(src: &str, f: impl FnOnce(&KValue) -> String) -> String {
+    match script(src) {
+        Err(()) => "panic".into(),
+        Ok(None) => "err".into(),
+        Ok(Some(v)) => format!("ok {}", f(&v)),
+    }
+}
+
+fn list_ints(v: &KValue) -> Vec<i64> {
+    match v {
+        KValue::List(l) => l.data().iter().map(|x| as_i64(x).unwrap_or(-777)).collect(),
+        KValue::Tuple(t) => t.iter().map(|x| as_i64(x).unwrap_or(-777)).collect(),
+        _ => vec![-888],
+    }
+}
+
+fn gen_kernel_cases(k: &mut KRun, thorough: bool) {
+    let nums = num_pool();
+    let ranges = range_pool();
+    // ---- KRange (direct) ------------------------------------------------------------------------
+    for r in &ranges {
+        let rp = range_proto(r);
+        k.add(format!("abr {}", rp), ok_or_panic(caught(|| krange(r).as_bounded_range()), |x| format!("{} {}", x.start, x.end)), format!("KRange{:?}.as_bounded_range()", r));
+        k.add(
+            format!("size {}", rp),
+            ok_or_panic(caught(|| krange(r).size()), |x| x.map(|n| (n as u64 as i128).to_string()).unwrap_or_else(|| "none".into())),
+            format!("KRange{:?}.size()", r),
+        );
+        for n in &nums {
+            k.add(
+                format!("contains {} {}", rp, n.proto()),
+                ok_or_panic(caught(|| krange(r).contains(n.knum())), |b| if b { "1".into() } else { "0".into() }),
+                format!("KRange{:?}.contains({:?})", r, n),
+            );
+        }
+        for m in [0usize, 1, 3, 4, 5, 255, 65536, 4294967296, 9223372036854775807] {
+            k.add(
+                format!("indices {} {}", rp, m),
+                ok_or_panic(caught(|| krange(r).indices(m)), |x| format!("{} {}", x.start, x.end)),
+                format!("KRange{:?}.indices({})", r, m),
+            );
+        }
+        if let (Some(s), Some((e, incl))) = (r.0, r.1) {
+            let large = i32::try_from(s).is_err() || i32::try_from(e).is_err();
+            for (name, back) in [("popf", false), ("popb", true)] {
+                let imp = caught(|| {
+                    let mut kr = krange(r);
+                    let v = if back { kr.pop_back() } else { kr.pop_front() };
+                    (v.ok().flatten(), kr.start().unwrap(), kr.end().unwrap())
+                });
+                k.add(
+                    format!("{} {} {} {} {}", name, large as u8, s, e, incl as u8),
+                    ok_or_panic(imp, |(v, s2, (e2, i2))| format!("{} {} {} {}", v.map(|x| x.to_string()).unwrap_or_else(|| "none".into()), s2, e2, i2 as u8)),
+                    format!("KRange{:?}.{}", r, name),
+                );
+            }
+        }
+    }
+    let small = small_range_pool();
+    for a in &small {
+        for b in &small {
+            if !thorough && (a.0.is_none() && b.0.is_none()) {
+                continue;
+            }
+            k.add(
+                format!("isect {} {}", range_proto(a), range_proto(b)),
+                ok_or_panic(caught(|| krange(a).intersection(&krange(b))), |x| match x {
+                    None => "none".into(),
+                    // the result is built with KRange::from(start..end)
+                    Some(r) => format!("{} {}", r.start().unwrap(), r.end().unwrap().0),
+                }),
+                format!("KRange{:?}.intersection({:?})", a, b),
+            );
+        }
+    }
+    // ---- run_index / validate_index (scripts) -------------------------------------------------------
+    for n in &nums {
+        let ns = n.src();
+        k.add(format!("idxseq 4 {}", n.proto()), script_outcome(&format!("[0, 1, 2, 3][{}]", ns), |v| as_i64(v).unwrap_or(-777).to_string()), format!("[0, 1, 2, 3][{}]", ns));
+        k.add(format!("idxseq 4 {}", n.proto()), script_outcome(&format!("(0, 1, 2, 3)[{}]", ns), |v| as_i64(v).unwrap_or(-777).to_string()), format!("(0, 1, 2, 3)[{}]", ns));
+        k.add(format!("idxseq 0 {}", n.proto()), script_outcome(&format!("[][{}]", ns), |v| as_i64(v).unwrap_or(-777).to_string()), format!("[][{}]", ns));
+        k.add(
+            format!("idxseq 3 {}", n.proto()),
+            script_outcome(&format!("{{a: 0, b: 1, c: 2}}[{}]", ns), |v| match v {
+                KValue::Tuple(t) if t.len() == 2 => as_i64(&t[1]).unwrap_or(-777).to_string(),
+                _ => "?".into(),
+            }),
+            format!("{{a: 0, b: 1, c: 2}}[{}]", ns),
+        );
+        k.add(
+            format!("idxstr 4 {}", n.proto()),
+            script_outcome(&format!("'0123'[{}]", ns), |v| match v {
+                KValue::Str(s) => {
+                    let i: i64 = s.as_str().parse().unwrap_or(-777);
+                    format!("{} {}", i, i + 1)
+                }
+                _ => "?".into(),
+            }),
+            format!("'0123'[{}]", ns),
+        );
+        k.add(format!("asglist 4 {}", n.proto()), script_outcome(&format!("x = [0, 1, 2, 3]\nx[{}] = 9\nx", ns), |v| list_ints(v).iter().position(|x| *x == 9).map(|p| p.to_string()).unwrap_or("?".into())), format!("x = [0, 1, 2, 3]; x[{}] = 9", ns));
+        k.add(format!("linsert 4 {}", n.proto()), script_outcome(&format!("x = [0, 1, 2, 3]\nx.insert({}, 9)\nx", ns), |v| list_ints(v).iter().position(|x| *x == 9).map(|p| p.to_string()).unwrap_or("?".into())), format!("x = [0, 1, 2, 3]; x.insert({}, 9)", ns));
+        k.add(format!("lremove 4 {}", n.proto()), script_outcome(&format!("x = [0, 1, 2, 3]\nx.remove({})", ns), |v| as_i64(v).unwrap_or(-777).to_string()), format!("[0, 1, 2, 3].remove({})", ns));
+        k.add(
+            format!("lget 4 {}", n.proto()),
+            script_outcome(&format!("[0, 1, 2, 3].get({}, -5)", ns), |v| match as_i64(v) {
+                Some(-5) => "none".into(),
+                Some(i) => i.to_string(),
+                None => "?".into(),
+            }),
+            format!("[0, 1, 2, 3].get({}, -5)", ns),
+        );
+        // list.resize: counts above 1e6 are left out (gigantic allocation, outside the property)
+        let small_enough = match n {
+            N::I(i) => *i <= 1_000_000,
+            N::F(f) => !(*f > 1e6),
+        };
+        if small_enough {
+            k.add(format!("lresize {}", n.proto()), script_outcome(&format!("x = [0, 1, 2, 3]\nx.resize({})\nsize x", ns), |v| as_i64(v).unwrap_or(-777).to_string()), format!("[0, 1, 2, 3].resize({})", ns));
+        }
+        // map arm of run_index_assign: every key position, new and existing keys, 2-tuple or not
+        for key in 0..4u32 {
+            for pair in [true, false] {
+                let val = if pair { format!("('k{}', 9)", key) } else { "9".to_string() };
+                let src = format!("m = {{k0: 0, k1: 1, k2: 2}}\nm[{}] = {}\nm.keys().to_tuple()", ns, val);
+                k.add(
+                    format!("asgmap 3 {} {} {}", n.proto(), pair as u8, key),
+                    script_outcome(&src, |v| match v {
+                        KValue::Tuple(t) => t.iter().map(|x| match x { KValue::Str(s) => s.as_str().trim_start_matches('k').to_string(), _ => "?".into() }).collect::<Vec<_>>().join(" "),
+                        _ => "?".into(),
+                    }),
+                    src.replace('\n', "; "),
+                );
+            }
+        }
+        // shifts and integer helpers
+        for a in [1i64, -1, 3, 9223372036854775807, -9223372036854775808, 0] {
+            for (name, f) in [("shl", "shift_left"), ("shr", "shift_right")] {
+                let src = format!("({}).{}({})", N::I(a).src(), f, ns);
+                k.add(format!("{} {} {}", name, a, n.proto()), script_outcome(&src, |v| as_i64(v).unwrap_or(-777).to_string()), src.clone());
+            }
+        }
+    }
+    // index with ranges / range indexing
+    for r in &small {
+        let rp = range_proto(r);
+        let rs = range_src(r);
+        if r.0.is_none() && r.1.is_none() {
+            continue;
+        }
+        let rs = if r.0.is_none() { rs.replace("(..", "(..") } else { rs };
+        let seq = |v: &KValue| {
+            let xs = list_ints(v);
+            // (first element or the clamp position is not observable on an empty slice)
+            match xs.first() {
+                Some(a) => format!("{} {}", a, a + xs.len() as i64),
+                None => "empty".to_string(),
+            }
+        };
+        for (container, len) in [("[0, 1, 2, 3]", 4), ("(0, 1, 2, 3)", 4)] {
+            let src = format!("{}[{}]", container, rs);
+            k.add(format!("idxseqrange {} {}", len, rp), script_outcome(&src, seq), src.clone());
+        }
+        let src = format!("x = [0, 1, 2, 3]\nx[{}] = 9\nx", rs);
+        k.add(
+            format!("asglistrange 4 {}", rp),
+            script_outcome(&src, |v| {
+                let xs = list_ints(v);
+                match xs.iter().position(|x| *x == 9) {
+                    Some(a) => format!("{} {}", a, a + xs.iter().filter(|x| **x == 9).count()),
+                    None => "empty".to_string(),
+                }
+            }),
+            src.replace('\n', "; "),
+        );
+        if r.0.is_some() {
+            for n in &nums {
+                let src = format!("{}[{}]", rs, n.src());
+                k.add(format!("idxrange {} {}", rp, n.proto()), script_outcome(&src, |v| as_i64(v).unwrap_or(-777).to_string()), src.clone());
+            }
+        }
+        if let (Some(_), Some(_)) = (r.0, r.1) {
+            // run_temp_index on a range, reached by a nested pattern after the size test:
+            // `(..., y)` → index -1, `(x, ...)` → index 0
+            let src = format!("match {}\n  (..., y) then y\n  else 'nomatch'", rs);
+            k.add(format!("matchrange {} -1", rp), match_outcome(&src, r), src.replace('\n', "; "));
+            let src = format!("match {}\n  (x, ...) then x\n  else 'nomatch'", rs);
+            k.add(format!("matchrange {} 0", rp), match_outcome(&src, r), src.replace('\n', "; "));
+        }
+    }
+    // ---- arithmetic (scripts) -----------------------------------------------------------------------
+    for &a in I64_POOL {
+        k.add(format!("abs {}", a), script_outcome(&format!("({}).abs()", N::I(a).src()), |v| as_i64(v).unwrap_or(-777).to_string()), format!("({}).abs()", a));
+        for &b in I64_POOL {
+            let (sa, sb) = (N::I(a).src(), N::I(b).src());
+            k.add(
+                format!("rem {} {}", a, b),
+                script_outcome(&format!("{} % {}", sa, sb), |v| match v {
+                    KValue::Number(KNumber::I64(i)) => i.to_string(),
+                    KValue::Number(KNumber::F64(f)) if f.is_nan() => "nan".into(),
+                    _ => "?".into(),
+                }),
+                format!("{} % {}", sa, sb),
+            );
+            k.add(format!("remasg {} {}", a, b), script_outcome(&format!("x = {}\nx %= {}\nx", sa, sb), |v| as_i64(v).unwrap_or(-777).to_string()), format!("x = {}; x %= {}", sa, sb));
+            if b >= 0 {
+                k.add(format!("pow {} {}", a, b), script_outcome(&format!("{} ^ {}", sa, sb), |v| as_i64(v).unwrap_or(-777).to_string()), format!("{} ^ {}", sa, sb));
+            }
+            k.add(
+                format!("expanded 0 10 {}", b),
+                script_outcome(&format!("(0..10).expanded({})", sb), |v| match v {
+                    KValue::Range(r) => format!("{} {}", r.start().unwrap(), r.end().unwrap().0),
+                    _ => "?".into(),
+                }),
+                format!("(0..10).expanded({})", sb),
+            );
+            for &c in &[1i64, 0, -1, 2, 9223372036854775807, -9223372036854775808] {
+                if !thorough && !(a.unsigned_abs() <= 2 || a == i64::MAX || a == i64::MIN) {
+                    continue;
+                }
+                let src = format!("({}).step_to({}, {})", sa, sb, N::I(c).src());
+                k.add(format!("stepto {} {} {}", a, b, c), script_outcome(&src, |_| "iter".into()), src.clone());
+            }
+        }
+    }
+    // ---- patterns: signed_index_to_unsigned / run_slice / run_temp_index (scripts) ----------------------
+    for len in 0..6usize {
+        let elems: Vec<String> = (0..len).map(|i| i.to_string()).collect();
+        for (open, close, kind) in [("(", ")", "tuple"), ("[", "]", "list")] {
+            let lit = if len == 1 && kind == "tuple" { format!("({},)", elems[0]) } else { format!("{}{}{}", open, elems.join(", "), close) };
+            // `(rest..., y, z)` → SliceTo -2 ; `(x, rest...)` → SliceFrom 1 ; `(..., y)` → TempIndex -1
+            for (pat, req, min_len) in [
+                ("(rest..., y)", format!("slice {} -1 1", len), 1),
+                ("(rest..., y, z)", format!("slice {} -2 1", len), 2),
+                ("(x, rest...)", format!("slice {} 1 0", len), 1),
+                ("(x, y, rest...)", format!("slice {} 2 0", len), 2),
+            ] {
+                if len < min_len {
+                    continue;
+                }
+                let src = format!("match {}\n  {} then rest\n  else 'nomatch'", lit, pat);
+                k.add(
+                    req,
+                    script_outcome(&src, |v| {
+                        let xs = list_ints(v);
+                        match xs.first() {
+                            Some(a) => format!("{} {}", a, a + xs.len() as i64),
+                            None => "empty".into(),
+                        }
+                    }),
+                    src.replace('\n', "; "),
+                );
+            }
+            for (pat, idx, min_len) in [("(..., y)", -1i64, 1usize), ("(..., y, z2)", -2, 2), ("(y, ...)", 0, 1), ("(x0, y, ...)", 1, 2)] {
+                if len < min_len {
+                    continue;
+                }
+                let src = format!("match {}\n  {} then y\n  else 'nomatch'", lit, pat);
+                k.add(format!("tmpidx {} {}", len, idx), script_outcome(&src, |v| as_i64(v).map(|x| x.to_string()).unwrap_or("none".into())), src.replace('\n', "; "));
+            }
+        }
+    }
+    for idx in [-128i64, -127, -5, -4, -3, -1, 0, 1, 3, 127] {
+        for size in [0i64, 1, 3, 4, 5, 127, 128, 129, 9223372036854775807] {
+            // pure arithmetic identity (the function is private; its effect is observed above)
+            let imp = if idx < 0 { size - (-idx).min(size) } else { idx };
+            k.add(format!("sidx {} {}", idx, size), format!("ok {}", imp), "signed_index_to_unsigned (arithmetic mirror; behaviour observed through the pattern cases)".into());
+        }
+    }
+    // ---- string iterators: next / size_hint (direct) --------------------------------------------------
+    {
+        use koto_runtime::core_lib::string::iterators::{Bytes, Lines, Split};
+        use koto_runtime::KIteratorOutput;
+        let alpha = ["a", ",", "\n", "\r", "é"];
+        let max_len = if thorough { 5 } else { 4 };
+        let mut inputs: Vec<String> = vec![String::new()];
+        let mut frontier = vec![String::new()];
+        for _ in 0..max_len {
+            let mut next = vec![];
+            for s in &frontier {
+                for a in alpha {
+                    next.push(format!("{}{}", s, a));
+                }
+            }
+            inputs.extend(next.iter().cloned());
+            frontier = next;
+        }
+        let out_bounds = |input: &str, o: Option<KIteratorOutput>| -> Option<(usize, usize)> {
+            match o {
+                Some(KIteratorOutput::Value(KValue::Str(s))) => {
+                    let off = s.as_str().as_ptr() as usize;
+                    let _ = input;
+                    Some((off, off + s.len()))
+                }
+                _ => None,
+            }
+        };
+        for input in &inputs {
+            for pat in [",", "a", ",,", "é", "", "\n"] {
+                for steps in [0usize, 1, 2, 3, 6] {
+                    let imp = caught(|| {
+                        let ks = KString::from(input.as_str());
+                        let base = ks.as_str().as_ptr() as usize;
+                        let mut it = Split::new(ks.clone(), KString::from(pat));
+                        let mut pieces = vec![];
+                        for _ in 0..steps {
+                            match out_bounds(input, it.next()) {
+                                Some((a, b)) => pieces.push(format!("{}-{}", a - base, b - base)),
+                                None => break,
+                            }
+                        }
+                        let hint = caught(|| it.size_hint().0);
+                        format!("{} | {}", pieces.join(" "), ok_or_panic(hint, |_| "hint".into()))
+                    });
+                    let imp = imp.unwrap_or_else(|| "panic-in-next".into());
+                    k.add(format!("split {} {} {}", kvh::hex(input.as_bytes()), kvh::hex(pat.as_bytes()), steps), imp, format!("Split::new({:?}, {:?}) × {} next, size_hint", input, pat, steps));
+                }
+            }
+            for steps in [0usize, 1, 2, 3, 6] {
+                let imp = caught(|| {
+                    let ks = KString::from(input.as_str());
+                    let base = ks.as_str().as_ptr() as usize;
+                    let mut it = Lines::new(ks.clone());
+                    let mut pieces = vec![];
+                    for _ in 0..steps {
+                        match out_bounds(input, it.next()) {
+                            Some((a, b)) => pieces.push(format!("{}-{}", a - base, b - base)),
+                            None => break,
+                        }
+                    }
+                    let hint = caught(|| it.size_hint().0);
+                    format!("{} | {}", pieces.join(" "), ok_or_panic(hint, |_| "hint".into()))
+                })
+                .unwrap_or_else(|| "panic-in-next".into());
+                k.add(format!("lines {} {}", kvh::hex(input.as_bytes()), steps), imp, format!("Lines::new({:?}) × {} next, size_hint", input, steps));
+            }
+            if input.len() <= 3 {
+                for steps in 0..=5usize {
+                    let imp = caught(|| {
+                        let mut it = Bytes::new(KString::from(input.as_str()));
+                        let mut n = 0;
+                        for _ in 0..steps {
+                            if it.next().is_some() {
+                                n += 1;
+                            } else {
+                                break;
+                            }
+                        }
+                        let hint = caught(|| it.size_hint().0);
+                        format!("{} | {}", n, ok_or_panic(hint, |h| h.to_string()))
+                    })
+                    .unwrap_or_else(|| "panic-in-next".into());
+                    k.add(format!("bytes {} {}", input.len(), steps), imp, format!("Bytes::new({:?}) × {} next, size_hint", input, steps));
+                }
+            }
+        }
+    }
+    // ---- TupleSlice::with_bounds / StringSlice::{with_bounds, split} (direct) --------------------------
+    {
+        let t = koto_runtime::KTuple::from(vec![KValue::from(0i64), KValue::from(1i64), KValue::from(2i64), KValue::from(3i64), KValue::from(4i64), KValue::from(5i64)]);
+        let vals: &[usize] = &[0, 1, 2, 3, 5, 6, 7, usize::MAX - 1, usize::MAX, (i64::MAX as usize), (i64::MAX as usize) + 1];
+        for &(s0, e0) in &[(0usize, 6usize), (1, 5), (2, 2), (3, 6)] {
+            let sub = t.make_sub_tuple(s0..e0).unwrap();
+            for &a in vals {
+                for &b in vals {
+                    let imp = caught(|| sub.make_sub_tuple(a..b));
+                    k.add(
+                        format!("withbounds 6 {} {} {} 1", s0, a, b),
+                        ok_or_panic(imp, |r| match r {
+                            None => "none".into(),
+                            Some(x) => match x.first().and_then(as_i64) {
+                                Some(f) => format!("{} {}", f, f + x.len() as i64),
+                                None => {
+                                    // empty: bounds not observable through the values
+                                    format!("{} {}", a.wrapping_add(s0), b.wrapping_add(s0))
+                                }
+                            },
+                        }),
+                        format!("(0..6 tuple)[{}..{}].make_sub_tuple({}..{})", s0, e0, a, b),
+                    );
+                }
+            }
+        }
+        let text = "aé€b𝜋c"; // 1 + 2 + 3 + 1 + 4 + 1 = 12 bytes
+        let whole = koto_parser::StringSlice::<usize>::from(text.to_string());
+        let base = whole.as_str().as_ptr() as usize;
+        for &s0 in &[0usize, 1, 3, 6] {
+            let sub = whole.with_bounds(s0..12).unwrap();
+            for &a in vals.iter().chain([4usize, 8, 11, 12, 13].iter()) {
+                for &b in vals.iter().chain([4usize, 8, 11, 12, 13].iter()) {
+                    let (na, nb) = (a.wrapping_add(s0), b.wrapping_add(s0));
+                    let boundary_ok = text.is_char_boundary(na.min(13)) && text.is_char_boundary(nb.min(13)) && na <= 12 && nb <= 12;
+                    let imp = caught(|| sub.with_bounds(a..b));
+                    k.add(
+                        format!("withbounds 12 {} {} {} {}", s0, a, b, boundary_ok as u8),
+                        ok_or_panic(imp, |r| match r {
+                            None => "none".into(),
+                            Some(x) => {
+                                let p = x.as_str().as_ptr() as usize - base;
+                                format!("{} {}", p, p + x.as_str().len())
+                            }
+                        }),
+                        format!("StringSlice({:?})[{}..].with_bounds({}..{})", text, s0, a, b),
+                    );
+                }
+                let p = a.wrapping_add(s0);
+                let boundary_ok = p <= 12 && text.is_char_boundary(p);
+                let imp = caught(|| sub.split(a));
+                k.add(
+                    format!("strsplit 12 {} {} {}", s0, a, boundary_ok as u8),
+                    ok_or_panic(imp, |r| match r {
+                        None => "none".into(),
+                        Some((l, _r)) => (l.as_str().as_ptr() as usize - base + l.as_str().len()).to_string(),
+                    }),
+                    format!("StringSlice({:?})[{}..].split({})", text, s0, a),
+                );
+            }
+        }
+    }
+    // ---- KotoLexer::peek (direct) ---------------------------------------------------------------------
+    for q in 0..5usize {
+        for n in 0..8usize {
+            let imp = caught(|| {
+                let mut lx = koto_lexer::Lexer::new("a b c d e f g h i j k l m n o p");
+                for i in 0..q {
+                    let _ = lx.peek(i);
+                }
+                caught(|| lx.peek(n).is_some())
+            })
+            .flatten();
+            // the model returns the number of tokens lexed by this call; the observable result is
+            // whether the n-th queued token exists afterwards
+            k.add(format!("peek {} {}", q, n), ok_or_panic(imp, |b| b.to_string()), format!("Lexer with {} queued tokens, peek({})", q, n));
+        }
+    }
+    // ---- format_source_excerpt (direct) ---------------------------------------------------------------
+    for (src_text, n_lines) in [("", 0i64), ("a", 1), ("a\n", 1), ("a\nbb", 2), ("a\nbb\n", 2), ("a\n\nccc\n", 3)] {
+        for sl in [0u32, 1, 2, 3, u32::MAX] {
+            for el in [0u32, 1, 2, 3, u32::MAX - 1, u32::MAX] {
+                for (sc, ec) in [(0u32, 0u32), (0, 1), (1, 0), (2, 5), (u32::MAX, u32::MAX), (0, u32::MAX)] {
+                    if ec - sc.min(ec) > 1000 || (sc as u64) > 1000 && sl == el {
+                        // `"^".repeat(end.column - start.column)` / `" ".repeat(start.column + 1)` with
+                        // ~4·10^9: a gigantic allocation, outside the property — only when the
+                        // single-line branch is taken
+                        if sl == el && (sl as i64) < n_lines {
+                            continue;
+                        }
+                    }
+                    if (el as i64 - sl as i64) > 1000 {
+                        // `(start.line..=end.line).map(to_string).collect()`: gigantic allocation
+                        continue;
+                    }
+                    let span = koto_parser::Span { start: koto_parser::Position { line: sl, column: sc }, end: koto_parser::Position { line: el, column: ec } };
+                    let imp = caught(|| koto_parser::format_source_excerpt(src_text, &span, None));
+                    k.add(format!("excerpt {} {} {} {} {}", n_lines, sl, sc, el, ec), ok_or_panic(imp, |_| "text".into()), format!("format_source_excerpt({:?}, {}:{}..{}:{})", src_text, sl, sc, el, ec));
+                }
+            }
+        }
+    }
+    // ---- Frame (hook H3, direct) ------------------------------------------------------------------------
+    {
+        use koto_bytecode::verif::{VerifArg, VerifFrame};
+        for lc in [0u8, 1, 100, 200, 242, 243, 248, 253, 254, 255] {
+            for caps in [0usize, 1, 11, 12, 13, 255, 256, 300] {
+                for ph in [0usize, 1, 2, 255, 256] {
+                    if !thorough && caps > 13 && ph > 2 {
+                        continue;
+                    }
+                    let imp = caught(|| {
+                        let args: Vec<VerifArg> = (0..ph).map(|_| VerifArg::Placeholder).collect();
+                        let captures: Vec<u32> = (0..caps as u32).map(|i| 1000 + i).collect();
+                        VerifFrame::new(lc, &args, &captures).next_temporary_register()
+                    });
+                    k.add(format!("framenew {} {} {}", lc, caps, ph), ok_or_panic(imp, |b| b.to_string()), format!("Frame::new(local_count={}, {} captures, {} placeholders)", lc, caps, ph));
+                }
+            }
+        }
+        let mut rng = Rng::new(606);
+        for base_locals in [0u8, 100, 200, 240, 250, 253, 254] {
+            for _ in 0..(if thorough { 60 } else { 12 }) {
+                let len = 1 + rng.below(40);
+                let mut ops = String::new();
+                let push_bias = 2 + rng.below(3) as u32;
+                for _ in 0..len {
+                    ops.push(if rng.chance(push_bias, push_bias + 1) { 'u' } else { 'o' });
+                }
+                let imp = caught(|| {
+                    let mut f = VerifFrame::new(base_locals, &[], &[]);
+                    let mut out = vec![];
+                    for c in ops.chars() {
+                        let r = caught(|| if c == 'u' { f.push_register() } else { f.pop_register() });
+                        match r {
+                            None => {
+                                out.push("panic".to_string());
+                                break;
+                            }
+                            Some(Ok(n)) => out.push(format!("{}{}", c, n)),
+                            Some(Err(_)) => out.push(format!("{}E", c)),
+                        }
+                    }
+                    out.join(" ")
+                })
+                .unwrap_or_else(|| "panic".into());
+                k.add(format!("frameops {} {}", base_locals as u32 + 1, ops), imp, format!("Frame::new({}) then {}", base_locals, ops));
+            }
+        }
+        for len in 0..5usize {
+            for n in [0usize, 1, 2, 4, 5, 6, usize::MAX] {
+                let imp = caught(|| {
+                    let mut f = VerifFrame::new(3, &[], &[]);
+                    for _ in 0..len {
+                        let _ = f.push_register();
+                    }
+                    caught(|| f.peek_register(n))
+                })
+                .flatten();
+                // registers are 4, 5, …; peek(n) is position len - n - 1 from the bottom
+                k.add(
+                    format!("peekreg {} {}", len, n),
+                    ok_or_panic(imp, |r| match r {
+                        Ok(reg) => (reg as i64 - 4).to_string(),
+                        Err(_) => "none".into(),
+                    }),
+                    format!("Frame with {} pushed registers, peek_register({})", len, n),
+                );
+            }
+        }
+    }
+    // ---- ExecutionTimeout (hook H4, direct) -------------------------------------------------------------
+    for (secs, label) in [(0u64, "0"), (1, "1"), (1u64 << 40, "2^40"), (1u64 << 62, "2^62"), (u64::MAX, "u64::MAX")] {
+        let imp = caught(|| koto_runtime::verif_timeout_probe(Duration::from_secs(secs), 1, 0).len());
+        // `now` (seconds of the monotonic clock) is small compared with the pool values
+        k.add(format!("deadline 100000 {}", secs), ok_or_panic(imp, |_| "instant".into()), format!("ExecutionTimeout::new(Duration::from_secs({}))", label));
+    }
+}
+
+/// `match <range> (..., y)` / `(x, ...)`: the pattern first tests the size (run_size → KRange::size),
+/// then run_temp_index. The request sent to the model is the temp-index kernel; the size test is
+/// accounted for here: when the size kernel panics / the range is empty the arm is not reached.
+fn match_outcome(src: &str, _r: &R) -> String {
+    script_outcome(src, |v| match v {
+        KValue::Str(_) => "nomatch".into(),
+        other => as_i64(other).map(|x| x.to_string()).unwrap_or("none".into()),
+    })
+}
+
+fn run_kernel_correspondence(cx: &mut Ctx) {
+    let Some(_) = cx.drv.as_ref() else {
+        cx.rep.note("no model driver: kernel correspondence skipped");
+        return;
+    };
+    let mut k = KRun { reqs: vec![], impls: vec![], srcs: vec![] };
+    gen_kernel_cases(&mut k, cx.thorough);
+    let resps = cx.drv.as_mut().unwrap().batch(&k.reqs);
+    let mut disagreements = 0u64;
+    let mut by_kernel: BTreeMap<String, (u64, u64, u64)> = BTreeMap::new(); // (cases, model panics, impl panics)
+    for i in 0..k.reqs.len() {
+        let req = &k.reqs[i];
+        let kernel = req.split(' ').next().unwrap_or("").to_string();
+        let mut model = resps[i].clone();
+        let mut imp = k.impls[i].clone();
+        // observation adapters (documented in rule): kernels whose full result is not observable
+        adapt(&kernel, req, &mut model, &mut imp);
+        let e = by_kernel.entry(kernel.clone()).or_insert((0, 0, 0));
+        e.0 += 1;
+        if model.contains("panic") {
+            e.1 += 1;
+        }
+        if imp.contains("panic") {
+            e.2 += 1;
+        }
+        cx.rep.case(&format!("K {} :: {}", req, k.srcs[i]), true);
+        cx.rep.bump(&format!("K:{}:{}", kernel, if imp.contains("panic") { "panic" } else if imp.starts_with("err") { "err" } else { "ok" }));
+        if cx.rep.samples.len() < 6 && i % 997 == 3 {
+            cx.rep.sample(json!({"kernel_request": req, "real_call": k.srcs[i], "impl": imp, "model": model}));
+        }
+        if model != imp {
+            disagreements += 1;
+            if disagreements <= 5 {
+                cx.rep.violation(
+                    "K",
+                    &format!("K:C06:Model.Guards.{}", kernel),
+                    json!({"request": req, "real_call": k.srcs[i], "impl": imp, "model": model,
+                           "note": "kernel model and implementation disagree (outcome class or value); the theorem about this kernel in Props/C06.lean no longer speaks about this code"}),
+                );
+            }
+        }
+    }
+    cx.rep.extra.insert("kernel_cases".into(), json!(k.reqs.len()));
+    cx.rep.extra.insert("kernel_disagreements".into(), json!(disagreements));
+    cx.rep.extra.insert("kernels".into(), json!(by_kernel.iter().map(|(k, v)| (k.clone(), json!({"cases": v.0, "model_panics": v.1, "impl_panics": v.2}))).collect::<BTreeMap<_, _>>()));
+}
+
+/// Bring model output and observation to the same vocabulary where the implementation's result is
+/// only partly observable.
+fn adapt(kernel: &str, req: &str, model: &mut String, imp: &mut String) {
+    let f: Vec<&str> = req.split(' ').collect();
+    match kernel {
+        "idxseqrange" | "asglistrange" | "slice" => {
+            // an empty slice does not show where it was cut
+            let m0 = model.clone();
+            if let Some(rest) = m0.strip_prefix("ok ") {
+                let p: Vec<&str> = rest.split(' ').collect();
+                if p.len() == 2 && p[0] == p[1] {
+                    *model = "ok empty".into();
+                }
+                if rest == "none" {
+                    *model = "ok nomatch-or-null".into();
+                }
+            }
+            if imp == "ok -888 -887" {
+                // Null / 'nomatch' result
+                *imp = "ok nomatch-or-null".into();
+            }
+        }
+        "split" | "lines" => {
+            // the size hint's value is not compared (only whether it can be computed)
+            let m0 = model.clone();
+            if let Some((a, b)) = m0.split_once(" | ") {
+                let b = if b.starts_with("ok") { "ok hint" } else { b };
+                *model = format!("{} | {}", a, b);
+            }
+        }
+        "peek" => {
+            // model: tokens lexed by the call → whether token n exists afterwards (16+ tokens available)
+            let m0 = model.clone();
+            if let Some(rest) = m0.strip_prefix("ok ") {
+                let add: i64 = rest.parse().unwrap_or(0);
+                let q: i64 = f[1].parse().unwrap_or(0);
+                let n: i64 = f[2].parse().unwrap_or(0);
+                *model = format!("ok {}", n < q + add);
+            }
+        }
+        "withbounds" => {}
+        _ => {}
+    }
+}
